@@ -1,5 +1,6 @@
 import Goat.Model.Backtrace
-/-! line protocol: `bt <tree>` — `o<p>` operation, `f<p>` fault, `c<site> ( … )` call. -/
+/-! line protocol: `bt <tree>` — `o<p>` operation, `f<p>` fault, `c<site> ( … )` call;
+    `bt pos <file idx> <func idx> <line> <column>` — the fields read back from the position word. -/
 namespace Goat.Driver
 open Goat.Backtrace
 
@@ -30,6 +31,14 @@ partial def parseNodes : List String → Option (Nodes × List String)
     | _ => none
 
 def btCmd (args : List String) : String :=
+  match args with
+  | ["pos", fi, gi, line, col] =>
+    match fi.toNat?, gi.toNat?, line.toNat?, col.toNat? with
+    | some fi, some gi, some line, some col =>
+      let (a, b, c, d) := posInfo (newPos fi gi line col)
+      s!"{a} {b} {c} {d}"
+    | _, _, _, _ => "bad-op"
+  | _ =>
   match parseNodes args with
   | some (prog, []) =>
     match execs [] prog with
